@@ -453,6 +453,158 @@ pub fn placeholders(r: &mut Rng, ev: Ev) -> Vec<Ph> {
     }
 }
 
+/// "Relatives" of a placeholder value: values whose machine representation is the base value's under one of the
+/// transformations a too-weak key loses or confuses - truncation to a narrower width (v, v +- 2^k, zero- against
+/// sign-extension), a dropped sign, dropped low bits (rounding to f32, +-1 ulp, one flipped bit), swapped or folded
+/// halves / components (xor- and add-folds collide on swapped and on equally-perturbed pairs), and values that are
+/// equal as numbers but not as bits (1.0 / 1.00 as Decimal, 3 / 3.0 as Number). A result memoised per argument
+/// under such a key is returned for the relative too; evaluated back to back with the base on one thread, the
+/// second call then differs from its isolated evaluation.
+pub fn relatives(r: &mut Rng, p: Ph, n_random: usize) -> Vec<Ph> {
+    fn f64_op(r: &mut Rng, b: u64, op: usize) -> u64 {
+        let x = f64::from_bits(b);
+        match op {
+            0 => b ^ (1u64 << 63),
+            1 => b ^ (1u64 << r.below(8)),
+            2 => b ^ (1u64 << r.below(64)),
+            3 => if r.chance(0.5) { b.wrapping_add(1) } else { b.wrapping_sub(1) },
+            4 => ((x as f32) as f64).to_bits(),
+            5 => x.trunc().to_bits(),
+            6 => (if r.chance(0.5) { x + 4294967296.0 } else { x - 4294967296.0 }).to_bits(),
+            7 => b.rotate_left(32),
+            _ => b,
+        }
+    }
+    fn i64_fixed(v: i64) -> Vec<i64> {
+        vec![v.wrapping_add(1 << 32), v.wrapping_sub(1 << 32), (v as u32) as i64, (v as i32) as i64, v.wrapping_neg()]
+    }
+    fn i64_op(r: &mut Rng, v: i64) -> i64 {
+        match r.below(10) {
+            0 => v.wrapping_add(1i64 << [8, 16, 31, 48, 63][r.below(5)]),
+            1 => v.wrapping_sub(1i64 << [8, 16, 31, 48, 63][r.below(5)]),
+            2 => (v as u16) as i64,
+            3 => (v as i16) as i64,
+            4 => (v as u8) as i64,
+            5 => (v as i8) as i64,
+            6 => !v,
+            7 => v ^ (1i64 << r.below(64)),
+            8 => v.rotate_left(32),
+            _ => ((v as f64) as i64),
+        }
+    }
+    let mut out: Vec<Ph> = Vec::new();
+    match p {
+        Ph::F64(b) => {
+            out.push(Ph::F64(f64_op(r, b, 0)));
+            out.push(Ph::F64(f64_op(r, b, 4)));
+            for _ in 0..n_random {
+                let op = r.below(8);
+                out.push(Ph::F64(f64_op(r, b, op)));
+            }
+        }
+        Ph::I64(v) => {
+            out.extend(i64_fixed(v).into_iter().map(Ph::I64));
+            for _ in 0..n_random {
+                out.push(Ph::I64(i64_op(r, v)));
+            }
+        }
+        Ph::Cx(a, b) => {
+            let s = 1u64 << 63;
+            out.extend([Ph::Cx(a, b ^ s), Ph::Cx(a ^ s, b), Ph::Cx(a ^ s, b ^ s), Ph::Cx(b, a)]);
+            if n_random >= 8 {
+                // multiplicative word-at-a-time hashes (h = (rotl(h, k) ^ word) * ODD) carry a difference upwards only:
+                // a difference in the top bit of one word stays one bit, and bit k-1 of the next word cancels it
+                for k in 0..8 {
+                    out.push(Ph::Cx(a ^ s, b ^ (1u64 << k)));
+                }
+                out.push(Ph::Cx(a ^ s, b ^ (1u64 << (8 + r.below(56)))));
+            }
+            for _ in 0..n_random {
+                match r.below(6) {
+                    0 => {
+                        // the same bit flipped in both components (an xor-fold of the two cannot tell)
+                        let m = 1u64 << r.below(64);
+                        out.push(Ph::Cx(a ^ m, b ^ m));
+                    }
+                    1 => {
+                        // +d / -d (an add-fold cannot tell)
+                        let d = 1u64 << r.below(52);
+                        out.push(Ph::Cx(a.wrapping_add(d), b.wrapping_sub(d)));
+                    }
+                    2 => {
+                        let op = r.below(8);
+                        out.push(Ph::Cx(f64_op(r, a, op), b));
+                    }
+                    3 => {
+                        let op = r.below(8);
+                        out.push(Ph::Cx(a, f64_op(r, b, op)));
+                    }
+                    _ => {
+                        // one transformation per component
+                        let (oa, ob) = (r.below(8), r.below(8));
+                        let (na, nb) = (f64_op(r, a, oa), f64_op(r, b, ob));
+                        out.push(Ph::Cx(na, nb));
+                    }
+                }
+            }
+        }
+        Ph::Dec(bytes) => {
+            let d = Decimal::deserialize(bytes);
+            let (neg, scale) = (d.is_sign_negative(), d.scale());
+            let m = d.mantissa().unsigned_abs();
+            let (lo, mid, hi) = (m as u32, (m >> 32) as u32, (m >> 64) as u32);
+            let mk = |lo: u32, mid: u32, hi: u32, neg: bool, scale: u32| Ph::Dec(Decimal::from_parts(lo, mid, hi, neg, scale.min(28)).serialize());
+            out.push(mk(lo, mid, hi, !neg, scale));
+            // equal as numbers, different as bits
+            let mut t = d;
+            t.rescale(scale + 1);
+            out.push(Ph::Dec(t.serialize()));
+            out.push(Ph::Dec(d.normalize().serialize()));
+            // same digits, the point elsewhere
+            out.push(mk(lo, mid, hi, neg, scale + 1));
+            out.push(mk(lo, mid.wrapping_add(1), hi, neg, scale));
+            for _ in 0..n_random {
+                out.push(match r.below(7) {
+                    0 => mk(lo, mid, hi.wrapping_add(1), neg, scale),
+                    1 => mk(lo ^ (1 << r.below(32)), mid, hi, neg, scale),
+                    2 => mk(mid, lo, hi, neg, scale),
+                    3 => mk(lo.wrapping_add(1), mid, hi, neg, scale),
+                    4 => mk(lo, mid, hi, neg, scale.saturating_sub(1)),
+                    5 => mk(lo, mid ^ (1 << r.below(32)), hi, neg, scale),
+                    _ => mk(lo & 0xffff, 0, 0, neg, scale),
+                });
+            }
+        }
+        Ph::NumI(v) => {
+            out.push(Ph::NumF((v as f64).to_bits()));
+            out.extend(i64_fixed(v).into_iter().map(Ph::NumI));
+            for _ in 0..n_random {
+                out.push(Ph::NumI(i64_op(r, v)));
+            }
+        }
+        Ph::NumF(b) => {
+            let x = f64::from_bits(b);
+            if x.is_finite() && x.abs() < 9.2e18 {
+                out.push(Ph::NumI(x as i64));
+            }
+            out.push(Ph::NumF(f64_op(r, b, 0)));
+            out.push(Ph::NumF(f64_op(r, b, 4)));
+            for _ in 0..n_random {
+                let op = r.below(8);
+                out.push(Ph::NumF(f64_op(r, b, op)));
+            }
+        }
+    }
+    let mut uniq: Vec<Ph> = Vec::new();
+    for q in out {
+        if q != p && !uniq.contains(&q) {
+            uniq.push(q);
+        }
+    }
+    uniq
+}
+
+
 /// String literals handed to `Parser::new(` / `Tokenizer::new(` / `eval_x(` in the repository's own tests,
 /// and back-quoted snippets of the README. Returns (evaluator if derivable from the path, text).
 pub fn repo_corpus(repo: &str) -> Vec<(Option<Ev>, String)> {
@@ -546,6 +698,8 @@ pub struct PoolSizes {
     pub pair_samples_per_ev: usize,
     pub all_pairs: bool,
     pub max_corpus: usize,
+    /// value-relative families per evaluator (all single-function shapes for evaluators the change touches)
+    pub rel_families_per_ev: usize,
 }
 
 /// Build the candidate pool (oracle fields empty).
@@ -852,6 +1006,17 @@ pub fn build_pool(seed: u64, repo: &str, sz: &PoolSizes, focus: Option<&PoolFocu
                     }
                 }
             }
+        } else if fnames.len() > 8 {
+            // many functions named (a change that routes a whole family of functions through something new):
+            // every single-function shape of each
+            let evs: Vec<Ev> = if fc.evs.is_empty() { ALL_EV.to_vec() } else { fc.evs.clone() };
+            for e in evs {
+                for f in &fnames {
+                    for t in pair_shapes(f, f, &mut r, true) {
+                        add_expr(&mut pool, &mut r, e, t, "change_focus", 4);
+                    }
+                }
+            }
         }
     }
     // (i) boundary ladders: structural sizes at 2^k-1, 2^k, 2^k+1 (k = 3..8, as far as 256 characters allow) and a dense
@@ -959,6 +1124,81 @@ pub fn build_pool(seed: u64, repo: &str, sz: &PoolSizes, focus: Option<&PoolFocu
             let m = malform(&mut r, &t);
             let nph = r.range(1, 2);
             add_expr(&mut pool, &mut r, e, m, "malformed", nph);
+        }
+    }
+    // (j) value relatives: one formula, a base placeholder and its representation relatives (see `relatives`)
+    {
+        let mut push_family = |pool: &mut Pool, ev: Ev, text: String, chosen: Vec<Ph>| {
+            if chosen.len() < 2 || text.chars().count() > 256 || !seen.insert((ev, text.clone())) {
+                return;
+            }
+            let expr_id = pool.by_expr.len() as u32;
+            let mut idxs = Vec::new();
+            for ph in chosen {
+                idxs.push(pool.entries.len() as u32);
+                pool.entries.push(Entry { call: Call { ev, expr: text.clone(), ph }, expr_id, origin: "value_relatives", oracle: Outcome::Panic(String::new()), ticks: 0, trace: 0, sensitive: false, text_id: 0 });
+            }
+            pool.by_expr.push(idxs);
+            pool.by_text.entry(text).or_default().push(expr_id);
+        };
+        for e in ALL_EV {
+            let v = vocab(Some(e));
+            let focused = focus.map_or(false, |f| f.evs.contains(&e) && f.evs.len() <= 2);
+            let named: Vec<&str> = focus.map_or(Vec::new(), |f| f.tokens.iter().filter(|t| t.ends_with('(')).map(|t| t.trim_end_matches('(')).collect());
+            let names: Vec<&str> = v.unary.iter().chain(v.binary.iter()).chain(v.aggr.iter()).copied().collect();
+            let mut shapes: Vec<String> = Vec::new();
+            let consts: Vec<&str> = if v.floats { vec!["2", "3", "10", "0.5", "1.5", "7"] } else { vec!["2", "3", "10", "5", "16", "7"] };
+            let mut shapes_of = |f: &str, r: &mut Rng, all: bool| -> Vec<String> {
+                let c = consts[r.below(consts.len())];
+                let mut s = vec![format!("{}(@)", f), format!("{}({},@)", f, c), format!("{}(@,{})", f, c), format!("{}(@)+{}", f, c), format!("{}*{}(@)", c, f), format!("{}(@,@)", f)];
+                if !all {
+                    let k = r.below(s.len());
+                    s = vec![s.swap_remove(k)];
+                }
+                s
+            };
+            if focused {
+                for f in &names {
+                    if named.is_empty() || named.len() > 8 || named.contains(f) {
+                        shapes.extend(shapes_of(f, &mut r, true));
+                    }
+                }
+                for op in ["@^2", "2^@", "@*@", "@/3", "1/@", "@-1", "@%", "@!", "-@", "@°", "@rad", "@²", "3+@"] {
+                    shapes.push(op.to_string());
+                }
+            }
+            for _ in 0..sz.rel_families_per_ev {
+                if r.chance(0.8) {
+                    let f = names[r.below(names.len())];
+                    shapes.extend(shapes_of(f, &mut r, false));
+                } else {
+                    let c = consts[r.below(consts.len())];
+                    shapes.push(match r.below(6) { 0 => format!("@^{}", c), 1 => format!("{}^@", c), 2 => format!("{}/@", c), 3 => format!("@*{}", c), 4 => format!("{}-@", c), _ => format!("@+{}", c) });
+                }
+            }
+            for text in shapes {
+                // base: one of the evaluator's standard placeholders, or a small "nice" value
+                let list = &phs[e as usize];
+                let base = if r.chance(0.5) {
+                    *r.pick(list)
+                } else {
+                    let k = r.below(41) as i64 - 20;
+                    let x = k as f64 * [1.0, 0.5, 0.25, 4.0][r.below(4)];
+                    let y = (r.below(17) as f64 - 8.0) * [1.0, 0.5, 2.0][r.below(3)];
+                    match e {
+                        Ev::F64 => Ph::F64(x.to_bits()),
+                        Ev::I64 => Ph::I64(if r.chance(0.7) { k } else { k.wrapping_mul(65537) }),
+                        Ev::Dec => Ph::Dec(dec_bits((k * 25) as i128, 2)),
+                        Ev::Cx => Ph::Cx(x.to_bits(), y.to_bits()),
+                        Ev::Num => if r.chance(0.5) { Ph::NumI(k) } else { Ph::NumF(x.to_bits()) },
+                    }
+                };
+                let mut fam = vec![base];
+                let deep = e == Ev::Cx && r.chance(0.5);
+                fam.extend(relatives(&mut r, base, if deep { 8 } else { 4 }));
+                fam.truncate(if deep { 24 } else { 10 });
+                push_family(&mut pool, e, text, fam);
+            }
         }
     }
     pool
